@@ -273,6 +273,9 @@ func (env *SpecEnv) eval(se *SpecExpr) SV {
 		a, b := env.term(se.A), env.term(se.B)
 		return SV{V: Eq(a, b), T: types.Typ[types.Bool]}
 	case "forall", "exists":
+		if r, ok := env.expandBounded(se); ok {
+			return r
+		}
 		saved := map[string]*SV{}
 		var binders []string
 		var ranges []Term
@@ -1184,6 +1187,24 @@ func (env *SpecEnv) call(x *ast.CallExpr, subs map[string]*SpecExpr) SV {
 			return SV{V: vc.iteVal(c, a.V, b.V), T: a.T}
 		case "u8", "be16", "be32", "be64", "le16", "le32", "le24":
 			return env.streamRead(id.Name, env.args(x, subs))
+		case "det3":
+			// determinant of a 3x3 array-of-arrays value (spec-level definition)
+			a := env.expr(x.Args[0], subs)
+			m, ok := a.V.(ArrVal)
+			if !ok || len(m.E) != 3 {
+				sfail("det3 of %T", a.V)
+			}
+			e := func(i, j int) Term { return m.E[i].(ArrVal).E[j].(Term) }
+			mul, sub, add := NumMul, NumSub, NumAdd
+			if e(0, 0).S.K == KFP {
+				mul = func(a, b Term) Term { return FPBin("fp.mul", a, b) }
+				sub = func(a, b Term) Term { return FPBin("fp.sub", a, b) }
+				add = func(a, b Term) Term { return FPBin("fp.add", a, b) }
+			}
+			d := add(sub(mul(e(0, 0), sub(mul(e(1, 1), e(2, 2)), mul(e(2, 1), e(1, 2)))),
+				mul(e(1, 0), sub(mul(e(0, 1), e(2, 2)), mul(e(2, 1), e(0, 2))))),
+				mul(e(2, 0), sub(mul(e(0, 1), e(1, 2)), mul(e(1, 1), e(0, 2)))))
+			return SV{V: d, T: types.Typ[types.Float64]}
 		case "recovered":
 			return SV{V: TBool(true), T: boolT}
 		case "Pow":
@@ -1546,4 +1567,133 @@ func (env *SpecEnv) streamRead(kind string, as []SV) SV {
 	}
 	sfail("unknown stream function %s", kind)
 	return SV{}
+}
+
+
+// expandBounded expands `forall v.. :: lo <= v && v < hi && ... ==> body` with constant
+// bounds into a finite conjunction (exists: disjunction).
+func (env *SpecEnv) expandBounded(se *SpecExpr) (SV, bool) {
+	body := se.A
+	var guard *SpecExpr
+	if se.Kind == "forall" {
+		if body.Kind != "imp" {
+			return SV{}, false
+		}
+		guard, body = body.A, body.B
+	} else {
+		return SV{}, false
+	}
+	if guard.Kind != "go" {
+		return SV{}, false
+	}
+	lo := map[string]int64{}
+	hi := map[string]int64{}
+	var walk func(e ast.Expr) bool
+	walk = func(e ast.Expr) bool {
+		switch x := e.(type) {
+		case *ast.ParenExpr:
+			return walk(x.X)
+		case *ast.BinaryExpr:
+			if x.Op == token.LAND {
+				return walk(x.X) && walk(x.Y)
+			}
+			cv := func(e ast.Expr) (int64, bool) {
+				bl, ok := e.(*ast.BasicLit)
+				if !ok || bl.Kind != token.INT {
+					return 0, false
+				}
+				v, ok := constant.Int64Val(constant.MakeFromLiteral(bl.Value, bl.Kind, 0))
+				return v, ok
+			}
+			id := func(e ast.Expr) (string, bool) {
+				i, ok := e.(*ast.Ident)
+				if !ok {
+					return "", false
+				}
+				return i.Name, true
+			}
+			if c, ok := cv(x.X); ok {
+				if v, ok := id(x.Y); ok {
+					switch x.Op {
+					case token.LEQ:
+						lo[v] = c
+						return true
+					case token.LSS:
+						lo[v] = c + 1
+						return true
+					}
+				}
+			}
+			if c, ok := cv(x.Y); ok {
+				if v, ok := id(x.X); ok {
+					switch x.Op {
+					case token.LSS:
+						hi[v] = c
+						return true
+					case token.LEQ:
+						hi[v] = c + 1
+						return true
+					}
+				}
+			}
+		}
+		return false
+	}
+	if !walk(guard.Go) {
+		return SV{}, false
+	}
+	total := int64(1)
+	for _, v := range se.Vars {
+		l, ok1 := lo[v.Name]
+		h, ok2 := hi[v.Name]
+		if !ok1 || !ok2 || h-l > 64 || h < l {
+			return SV{}, false
+		}
+		total *= (h - l)
+		if total > 256 {
+			return SV{}, false
+		}
+	}
+	if len(lo) != len(se.Vars) || len(hi) != len(se.Vars) {
+		return SV{}, false
+	}
+	var conj []Term
+	var rec func(k int)
+	saved := map[string]*SV{}
+	for _, v := range se.Vars {
+		if o, ok := env.bound[v.Name]; ok {
+			oo := o
+			saved[v.Name] = &oo
+		} else {
+			saved[v.Name] = nil
+		}
+	}
+	if env.bound == nil {
+		env.bound = map[string]SV{}
+	}
+	rec = func(k int) {
+		if k == len(se.Vars) {
+			conj = append(conj, env.term(body))
+			return
+		}
+		v := se.Vars[k]
+		T := env.vc.eng.lookupType(env.pkg, v.Type)
+		for x := lo[v.Name]; x < hi[v.Name]; x++ {
+			if T != nil {
+				env.bound[v.Name] = SV{V: env.vc.intConst(x, T), T: T}
+			} else {
+				env.bound[v.Name] = SV{V: IntConst(big.NewInt(x))}
+			}
+			rec(k + 1)
+		}
+	}
+	rec(0)
+	for k, o := range saved {
+		if o == nil {
+			delete(env.bound, k)
+		} else {
+			env.bound[k] = *o
+		}
+	}
+	return SV{V: And(conj...), T: types.Typ[types.Bool]}, true
 }
